@@ -137,7 +137,12 @@ func registerHarnessIntrinsics() {
 		return nil, true
 	})
 	reg("vSummarise", func(in *Interp, fr *frame, args []Value) (Value, bool) {
-		in.summaries[concName(args[0])] = true
+		n := concName(args[0])
+		if len(n) > 0 && n[0] == '-' {
+			delete(in.summaries, n[1:])
+		} else {
+			in.summaries[n] = true
+		}
 		return nil, true
 	})
 	reg("vLogger", func(in *Interp, fr *frame, args []Value) (Value, bool) {
